@@ -246,7 +246,12 @@ class Session:
         try:
             if kind == "new":
                 data = {n: col_array(cs) for n, cs in op["cols"]}
-                t = Table(data, index=op["index"])
+                if op.get("fixed_width"):
+                    # string columns kept as numpy fixed-width strings (cast_strings=False): the same table for the model
+                    data = {n: (np.array(cs) if cs and all(isinstance(c, str) for c in cs) else data[n]) for n, cs in op["cols"]}
+                    t = Table(data, index=op["index"], cast_strings=False)
+                else:
+                    t = Table(data, index=op["index"])
                 for k, v in op.get("scalars", []):
                     if isinstance(v, dict) and "np" in v:
                         # scalar entries that are numpy objects: scalars, 0-d arrays, arrays of another length
@@ -630,6 +635,24 @@ def gen_sel(rng, n, col, depth=0):
 
 
 def gen_c07(rng, sess):
+    if rng.random() < 0.12:
+        # an index column stored as fixed-width numpy strings: look-ups and labels only (a longer name written into such
+        # a column is truncated by numpy, which the model's unbounded strings do not do)
+        op = gen_table(rng)
+        op["fixed_width"] = True
+        sess.step(op)
+        t = sess.pool[0]
+        col = [str(x) for x in t._data["name"]]
+        for _ in range(rng.randint(3, 9)):
+            if rng.random() < 0.35:
+                sess.step({"op": "labels"})
+            else:
+                api = rng.choice(["getitem", "get_index", "floordiv"])
+                o = {"op": "lookup", "api": api, "row": gen_row(rng, col, NAMES)}
+                if api == "getitem":
+                    o["col"] = "w"
+                sess.step(o)
+        return
     sess.step(gen_table(rng))
     for stepi in range(rng.randint(4, 14)):
         t = sess.pool[0]
